@@ -5,11 +5,14 @@ proof:          Props/C01.lean (comparison-clamp sites of COBYLA, BOBYQA, bounde
                 under dimension elimination), Props/Wrap.lean (elim_equiv, wrappers_forward_args)
 correspondence: S-wrap (wrapper stack vs optimize.c on every run) and S-glue: the proposal recorded by the site
                 hooks (pre-clamp / pre-transform point) is mapped by the Lean glue model to the point the user saw
+                S-util rescale stream: rescale.c (nlopt_compute_rescaling / nlopt_rescale / nlopt_new_rescaled / nlopt_unscale /
+                nlopt_reorder_bounds, the scaling layer of COBYLA and BOBYQA) against Model/Rescale.lean, bit for bit
+                (Props/C01Rescale.lean: scale vector, re-ordered scaled box never inverted, delivered point in the box)
 monitor:        in-box test of every callback invocation of every algorithm (also nested ones)"""
 import subprocess
 
 from .. import runcheck, monitors, swrap, problems
-from ..common import model_exe, canon_nan
+from ..common import model_exe, canon_nan, build_harness, run_model, sh, hexd
 
 GLUE_ALGS = {"NLOPT_LN_COBYLA": 102, "NLOPT_LN_BOBYQA": 103, "NLOPT_LN_NEWUOA_BOUND": 104, "NLOPT_LN_NEWUOA": 105, "NLOPT_LN_PRAXIS": 101,
              "NLOPT_GN_DIRECT": 107, "NLOPT_GN_DIRECT_L": 107, "NLOPT_GN_DIRECT_L_RAND": 107,
@@ -53,9 +56,66 @@ def glue_correspondence(ctx, batch):
     ctx.corr["glue"] = {"sites": len(lines), "disagreements": bad}
 
 
+def rescale_stream(ctx, bdir, rng):
+    """rescale.c vs Model/Rescale.lean on the same arguments: equal / unequal / negative / zero / infinite / NaN steps, boxes with
+    infinite and equal bounds, scale vectors with negative entries (the bounds flip and are re-ordered)"""
+    exe, ok, log = build_harness("util", bdir)
+    if not ok:
+        ctx.broke("util harness build", log)
+        return
+    steps = [1.0, 1.0, 1.0, 0.5, 2.0, -1.0, -0.25, 0.3, 0.27, 0.95, 1e-200, 1e200, 3.0, 0.1, -0.0, 0.0, float("inf"), 5e-324]
+    vals = [0.0, -0.0, 1.0, -1.0, 0.89, 3.5, -2.1, 0.83, 1e-8, 1e300, -1e300, float("inf"), float("-inf"), 5e-324, 2.7, -1.3, 0.37, 1.91]
+    nanp = lambda: "7ff8000000000000"
+    def lst(pool, n, pnan=0.03):
+        return ",".join(nanp() if rng.random() < pnan else hexd(rng.choice(pool) if rng.random() < 0.6 else rng.uniform(-4, 4)) for _ in range(n))
+    ops, kinds = [], {}
+    for _ in range(6000 if ctx.thorough else 1200):
+        n = rng.choice([1, 1, 2, 2, 3, 4, 7])
+        k = rng.randrange(6)
+        if k == 0:
+            if rng.random() < 0.35:
+                d = hexd(rng.choice(steps))
+                dx = ",".join([d] * n)                                  # equal steps: no rescaling
+                if rng.random() < 0.3 and n > 1:                         # ... except one entry, at a random place
+                    l = dx.split(","); l[rng.randrange(n)] = hexd(rng.choice(steps)); dx = ",".join(l)
+            else:
+                dx = lst(steps, n)
+            ops.append("cr " + dx)
+        elif k == 1:
+            ops.append("rs %s %s" % (rng.choice(["-", lst(steps, n)]), lst(vals, n)))
+        elif k == 2:
+            ops.append("us %s %s" % (rng.choice(["-", lst(steps, n)]), lst(vals, n)))
+        elif k == 3:
+            ops.append("rb %s %s" % (lst(vals, n), lst(vals, n)))
+        else:
+            lo = [rng.choice(vals) if rng.random() < 0.5 else rng.uniform(-4, 4) for _ in range(n)]
+            hi = [a if rng.random() < 0.15 else (a + abs(rng.choice(vals)) if rng.random() < 0.8 else float("inf")) for a in lo]
+            ops.append("sb %s %s %s" % (lst(steps, n, 0.01), ",".join(hexd(a) for a in lo), ",".join(hexd(a) for a in hi)))
+        kinds[ops[-1][:2]] = kinds.get(ops[-1][:2], 0) + 1
+    text = "\n".join(ops) + "\n"
+    rc, out = sh([exe, "rescale"], input=text.encode())
+    impl = out.split("\n")
+    try:
+        model = run_model("rescale", text)
+    except Exception as e:
+        ctx.broke("rescale model driver", repr(e))
+        return
+    bad = 0
+    for i, op in enumerate(ops):
+        a = canon_nan(impl[i]) if i < len(impl) else "?"
+        b = canon_nan(model[i]) if i < len(model) else "?"
+        if a != b:
+            bad += 1
+            if bad == 1:
+                ctx.broke("correspondence rescale (model vs rescale.c)", "%s: impl=%s model=%s" % (op, a, b))
+    ctx.corr["rescale.c"] = {"ops": len(ops), "kinds": kinds, "disagreements": bad}
+
+
 def run(ctx):
-    bdir, A = runcheck.setup(ctx, ["C01", "Wrap:elim_equiv|wrappers_forward"])
+    bdir, A = runcheck.setup(ctx, ["C01", "C01Rescale", "Wrap:elim_equiv|wrappers_forward"])
     if bdir:
+        import random
+        rescale_stream(ctx, bdir, random.Random(ctx.seed * 7919 + 17))
         rng, ps = runcheck.gen(ctx, A, 6000 if ctx.thorough else 1500)
         # boundary-aimed problems: unequal steps, offset boxes, starts on faces, every glue algorithm
         for nm in list(GLUE_ALGS) + ["NLOPT_LN_NELDERMEAD", "NLOPT_LN_SBPLX", "NLOPT_GN_CRS2_LM", "NLOPT_GN_ISRES", "NLOPT_GN_ESCH", "NLOPT_LD_MMA", "NLOPT_LD_CCSAQ"]:
